@@ -51,6 +51,37 @@ type c25Op struct {
 	Ref       int    `json:"ref,omitempty"` // replay: index into the proofs presented so far
 	Respell   bool   `json:"respell,omitempty"`
 	N         int    `json:"n,omitempty"`
+	// Far, when set, replaces TsOff: the timestamp is floor(now) ± K·2^Exp + Delta
+	// seconds, computed without overflow and spelt as the unsigned 64-bit
+	// two's-complement value when it would be negative.
+	Far *c25Far `json:"far,omitempty"`
+}
+
+// c25Far is a member of the "power-of-two distance" timestamp family: the
+// distances at which a seconds→ms/µs/ns conversion or a 32/64-bit
+// subtraction wraps.
+type c25Far struct {
+	Neg   bool  `json:"neg,omitempty"`
+	K     int64 `json:"k"`
+	Exp   int   `json:"exp"`
+	Delta int64 `json:"delta,omitempty"`
+}
+
+// c25FarTs renders floor(now) ± K·2^Exp + Delta as a decimal wire timestamp.
+func c25FarTs(nowSec int64, f *c25Far) (ts string, dist *big.Int) {
+	dist = new(big.Int).Lsh(big.NewInt(f.K), uint(f.Exp))
+	if f.Neg {
+		dist.Neg(dist)
+	}
+	dist.Add(dist, big.NewInt(f.Delta))
+	v := new(big.Int).Add(big.NewInt(nowSec), dist)
+	if v.Sign() < 0 {
+		v.Add(v, new(big.Int).Lsh(big.NewInt(1), 64))
+		if v.Sign() < 0 {
+			v.Neg(v)
+		}
+	}
+	return v.String(), dist
 }
 
 const c25KidAlphabet = "ABCDEFGHIJKLMNOPQRSTUVWXYZabcdefghijklmnopqrstuvwxyz0123456789_-"
@@ -121,6 +152,24 @@ func genC25(t *rapid.T) c25Case {
 		}
 		return ms
 	}
+	// power-of-two distances: ± k·2^e ± (a delta inside or just outside the skew)
+	genFar := func() *c25Far {
+		f := &c25Far{Neg: rapid.IntRange(0, 3).Draw(t, "farneg") == 0, K: 1, Exp: rapid.IntRange(0, 66).Draw(t, "farexp")}
+		switch rapid.IntRange(0, 3).Draw(t, "fark") {
+		case 0:
+			f.K = rapid.Int64Range(2, 255).Draw(t, "farkval")
+		case 1:
+			f.K = []int64{3, 5, 1000, 1_000_000, 1_000_000_000}[rapid.IntRange(0, 4).Draw(t, "farkunit")]
+		}
+		switch rapid.IntRange(0, 3).Draw(t, "fardelta") {
+		case 0:
+		case 1:
+			f.Delta = []int64{-skew - 1, -skew, -1, 1, skew, skew + 1}[rapid.IntRange(0, 5).Draw(t, "fardedge")]
+		default:
+			f.Delta = rapid.Int64Range(-skew, skew).Draw(t, "fard")
+		}
+		return f
+	}
 	n := rapid.IntRange(3, 24).Draw(t, "nops")
 	presented := 0
 	for i := 0; i < n; i++ {
@@ -133,6 +182,8 @@ func genC25(t *rapid.T) c25Case {
 			if rapid.IntRange(0, 2).Draw(t, "mutate") == 0 {
 				op.Mut = c25Muts[rapid.IntRange(0, len(c25Muts)-1).Draw(t, "mut")]
 				op.Arg = rapid.IntRange(0, 1000).Draw(t, "mutarg")
+			} else if rapid.IntRange(0, 5).Draw(t, "far") == 0 {
+				op.Far = genFar()
 			}
 			c.Ops = append(c.Ops, op)
 			presented++
@@ -274,6 +325,9 @@ func c25Build(c *c25Case, op c25Op, idx int, nowMs int64) []string {
 	kidIdx := op.Kid % len(c.Kids)
 	kid, secret := c.Kids[kidIdx], c.Secrets[kidIdx]
 	ts := strconv.FormatInt(nowMs/1000+op.TsOff, 10)
+	if op.Far != nil && op.Mut == "" {
+		ts, _ = c25FarTs(nowMs/1000, op.Far)
+	}
 	nonce := c25Nonce(c.Salt, idx)
 	origin := c.Origin
 	good := c25Mint(secret, kid, ts, nonce, origin)
@@ -586,6 +640,21 @@ func runC25(c c25Case) (out lib.Outcome) {
 			values := c25Build(&c, op, i, nowMs.Load())
 			if op.Mut != "" {
 				out.Label("mut:" + op.Mut)
+			} else if op.Far != nil {
+				// classify by distance: beyond 2^33 s the distance no longer fits a
+				// signed 64-bit count of nanoseconds, beyond 2^53 not of milliseconds
+				_, dist := c25FarTs(nowMs.Load()/1000, op.Far)
+				out.Label("ts-far")
+				switch bl := dist.Abs(dist).BitLen(); {
+				case bl > 63:
+					out.Label("ts-far:beyond-int64")
+				case bl > 54:
+					out.Label("ts-far:beyond-ms-range")
+				case bl > 34:
+					out.Label("ts-far:beyond-ns-range")
+				case dist.Cmp(big.NewInt(int64(c.Skew))) > 0:
+					out.Label("ts-far:outside-window")
+				}
 			}
 			judge(i, "fresh/"+op.Mut, values)
 		case "replay":
@@ -680,11 +749,12 @@ func runC25(c c25Case) (out lib.Outcome) {
 
 var propC25 = lib.Prop[c25Case]{
 	ID: "C25",
-	Rule: "stateful histories (3-24 ops) against ProofAuthenticate in require mode with an injected millisecond clock: config (skew 1-120 s, capacity 1-8 or default, cache on/off, 1-3 key ids, origin from the documented charset); ops: advance clock by 0..3*skew (edges at skew-1, skew, skew+1, 2*skew-1, 2*skew, 2*skew+1, optional sub-second part), present a fresh proof minted by the harness's own minter (ts offset in [-2*skew, 2*skew], edge biased) optionally with one of 42 field/header/key/origin mutations, replay any earlier presentation (optionally with the MAC's unused trailing bits re-spelt), N concurrent presentations of one proof. " +
+	Rule: "stateful histories (3-24 ops) against ProofAuthenticate in require mode with an injected millisecond clock: config (skew 1-120 s, capacity 1-8 or default, cache on/off, 1-3 key ids, origin from the documented charset); ops: advance clock by 0..3*skew (edges at skew-1, skew, skew+1, 2*skew-1, 2*skew, 2*skew+1, optional sub-second part), present a fresh proof minted by the harness's own minter (ts offset in [-2*skew, 2*skew], edge biased; one unmutated proof in 6 is instead stamped floor(now) ± k·2^e + d for e in 0..66, k in {1, 2..255, 3, 5, 10^3, 10^6, 10^9} and d inside or one second outside ±skew — the distances at which second→ms/µs/ns conversions and 32/64-bit subtractions wrap; a negative result is spelt as its unsigned 64-bit value) optionally with one of 42 field/header/key/origin mutations, replay any earlier presentation (optionally with the MAC's unused trailing bits re-spelt), N concurrent presentations of one proof. " +
 		"Oracle: reference verifier written from the documented grammar + model of admitted nonces (admission order and time); refusals must be the identical proxy_required failure with the inner authenticator untouched. Non-trivial: a replay of an admitted proof whose timestamp is still inside the window.",
-	Gen:          genC25,
-	Run:          runC25,
-	Essential:    []string{"replay-in-window", "replay-in-window-after-skew", "replay-after-capacity-turnover", "present:valid-fresh", "present:invalid", "concurrent-valid", "cache:off", "replay-respelt"},
+	Gen: genC25,
+	Run: runC25,
+	Essential: []string{"replay-in-window", "replay-in-window-after-skew", "replay-after-capacity-turnover", "present:valid-fresh", "present:invalid", "concurrent-valid", "cache:off", "replay-respelt",
+		"ts-far", "ts-far:outside-window", "ts-far:beyond-ns-range", "ts-far:beyond-ms-range", "ts-far:beyond-int64"},
 	EssentialMin: 300,
 	Assumptions: []string{
 		"'accepted' is demanded only of proofs the documented grammar admits, that verify, whose real-valued age is within the skew, and whose nonce was never admitted (or the cache is disabled); in the 1 s band where only the whole-second truncation of the clock decides, either answer is accepted",
